@@ -108,11 +108,14 @@ def check(ctx):
         h = max(hs, key=lambda x: len(body.loops[x]))
         exits = [(x, y) for (x, y) in body.loop_exits(h) if y in body.can_return]
         ok_exit = bool(exits)
+        # every exit is the Ok edge of a test of one of the two CAS answers (is_ok / !is_err / match, any loop form)
+        ok_edges = set()
+        for (cb_, c_) in cas:
+            if c_["dst"]["p"]: continue
+            for (tb, ok_t, err_t) in util.option_test_edges(body, dg, c_["dst"]["l"]):
+                if ok_t != err_t: ok_edges.add((tb, ok_t))
         for (x, y) in exits:
-            t = body.term(x)
-            e = strip_casts(dg.expr(t[1])) if t[0] == "Switch" else ("?",)
-            good = e[0] == "call" and e[1].endswith("is_ok") and y == t[3] and any(cb_ == e[3] - 1 or True for (cb_, _) in cas)
-            ok_exit = ok_exit and good
+            ok_exit = ok_exit and (x, y) in ok_edges
     ctx.ob("R12.2", f"{k}|returns-only-after-a-successful-transition", ok_exit, site, "the retry loop is left only on the is_ok() edge of one of the two transitions")
     st_fin = [(b, c) for (b, c) in body.calls if c.get("fname") == "store" and "execution_finish_delta_nanos" in show(dg.expr(c["args"][0]))]
     ok = len(st_fin) == 1 and bool(hs) and st_fin[0][0] not in body.loops[max(hs, key=lambda x: len(body.loops[x]))] and all(body.dominates(b, st_fin[0][0]) for (b, _) in cas[:1])
